@@ -46,6 +46,7 @@ def authOutOf (j : Json) : R AuthOut := do
   match j with
   | .str "role" => pure .role
   | .str "unknown" => pure .unknown
+  | .str "unknown0" => pure .unknown
   | .str "error" => pure .error
   | _ =>
     match ← authOf (field j "rt") with
@@ -114,5 +115,22 @@ def handleSrv (j : Json) : R Json := do
     ("state", strJ r.final.state.name), ("connected", .bool r.final.connected),
     ("remote", nodeJ r.final.remote), ("enc", strJ r.final.enc),
     ("consumed", natJ (recvs.length - r.final.recvs.length))]
+
+/-- for a script prefix and a list of candidate next inputs: does the server, after consuming
+prefix ++ [candidate], ask for yet another input? (one answer per candidate) -/
+def handleWants (j : Json) : R Json := do
+  let c ← cfgOf (field j "cfg")
+  let prefix_ ← (← getArr j "recvs").toList.mapM recvOf
+  let cands ← (← getArr j "cands").toList.mapM recvOf
+  let auths ← (← getArr j "auths").toList.mapM authOutOf
+  let regs := (← getArr j "regs").toList.map (fun x => match x with | .null => none | y => some (nodeOf y))
+  let sendOk ← (← getArr j "sendOk").toList.mapM asBool
+  let setEncOk := getBoolD j "setEncOk" true
+  let enc0 := S (getStrD j "enc0" "none")
+  let wants := cands.map (fun a =>
+    let script := prefix_ ++ [a, .fail true]
+    let r := run c script auths regs sendOk setEncOk enc0
+    r.final.recvs.isEmpty)
+  pure (Json.arr (wants.map (fun b => Lean.Json.bool b)).toArray)
 
 end Driver.HsD
